@@ -28,7 +28,7 @@ _L = Obj('Live')
 _DOA = Obj('DOA')
 
 # guards accepted for an effect on OPERAND
-_G_ITEM = 'type(OPERAND) in ALLOWED_GETITEM_TYPES'
+_G_ITEM = '(type(OPERAND) in ALLOWED_GETITEM_TYPES or builtin_view(OPERAND))'
 _G_BOOL = 'type(OPERAND) in ALLOWED_BOOL_TYPES'
 
 
@@ -45,7 +45,9 @@ def _guards(safe_param):
         # them with a descriptor - stated assumption, see NOT_DECIDED
         'user:getattr:__iter__': 'True', 'user:getattr:__getitem__': 'True', 'user:getattr:__class__': 'True',
         'user:getattr:__mro__': 'True', 'user:getattr:__bases__': 'True', 'user:getattr:__file__': 'True',
-        'user:getattr:__name__': 'True', 'user:getattr:__module__': 'True', 'user:getattr:values': 'isinstance(OPERAND, dict)',
+        'user:getattr:__name__': 'True', 'user:getattr:__module__': 'True',
+        # .values() is looked up on the object: builtin code only for an exact builtin dict
+        'user:getattr:values': pre + 'type(OPERAND) in ALLOWED_GETITEM_TYPES',
     }
 
 
@@ -108,6 +110,8 @@ _bool = _c('py__bool__', {'safe': BOOL}, True, call=lambda a: a.py__bool__(safe=
 _has_iter = _c('has_iter', {'safe': BOOL}, True, call=lambda a: a.has_iter(safe=True))
 _getitem = _c('py__simple_getitem__', {'index': ANY, 'safe': BOOL}, True,
               call=lambda a: a.py__simple_getitem__(0, safe=True))
+_getitem_all = _c('py__getitem__all_values', {'safe': BOOL}, True, unroll={0: 2, 1: 2},
+                  call=lambda a: a.py__getitem__all_values(safe=True))
 _iter_list = _c('py__iter__list', {}, False, unroll={0: 2}, call=lambda a: a.py__iter__list())
 _class = _c('py__class__', {}, False)
 _bases = _c('py__bases__', {}, False, unroll={0: 2})
@@ -123,7 +127,9 @@ FAMILIES = [
         'CompiledValue.execute_annotation', params=[('arguments', Opt(ANY))], ret=Seq(ANY), pure=True, assumed=True,
         note='the values an annotation object stands for (a value set, here a sequence); empty if unresolvable')}),
     Family('Live', methods={
-        'values': FnSpec('dict.values', ret=_L, pure=True, assumed=True, note='only reached for isinstance(obj, dict)'),
+        'values': FnSpec('dict.values', ret=_L, pure=True, assumed=True,
+                         ensures=['implies(type(self) in ALLOWED_GETITEM_TYPES, builtin_view(result))'],
+                         note='the values view of an exact builtin dict is iterated by builtin code'),
     }),
     Family('Type'),
     Family('DOA', attrs={'_obj': _L, '_inference_state': ANY},
@@ -132,6 +138,9 @@ FAMILIES = [
                                              assumed=True, note='wraps the object, no operation on it'),
                '_create_access': FnSpec('DOA._create_access', params=[('obj', _L)], ret=ANY, pure=True, assumed=True),
                'is_instance': FnSpec('DOA.is_instance', ret=BOOL, pure=True, assumed=True),
+               'py__getitem__all_values': FnSpec('DOA.py__getitem__all_values', params=[('safe', BOOL)],
+                                                 defaults={'safe': True}, ret=Opt(Seq(ANY)), assumed=False,
+                                                 note='recursive call on the class object: same contract'),
            }),
 ]
 
@@ -251,7 +260,7 @@ _filter_get = Contract(
     concrete_ensures=['all(n in result for n in DIR)', 'implies(not unsafe, GETTER_CALLS == [])'],
 )
 
-CONTRACTS = [_bool, _has_iter, _getitem, _iter_list, _static, _filter_get]
+CONTRACTS = [_bool, _has_iter, _getitem, _getitem_all, _iter_list, _static, _filter_get]
 
 
 def register(reg):
@@ -269,6 +278,8 @@ def register(reg):
         ret=Obj('AccessPath13'), pure=True, assumed=True, note='wraps the annotation object; no operation on it')
     reg.names['CompiledValueName'] = FnSpec('CompiledValueName', params=[('value', ANY), ('name', STR)], ret=ANY,
                                             pure=True, assumed=True)
+    reg.names['builtin_view'] = FnSpec('builtin_view', params=[('o', _L)], ret=BOOL, pure=True, assumed=True,
+                                       note='ghost: a dict view object of an exact builtin dict')
     reg.names['_sentinel'] = SV(_L, _z3.Const('getattr_static._sentinel', _Ref))
     reg.names['types'] = MNS('types', {
         'MemberDescriptorType': SV(_L, _z3.Const('types.MemberDescriptorType', _Ref)),
@@ -391,6 +402,13 @@ def structural(repo):
     return out
 
 
+def _standin(repo, seed, tier):
+    from pyvc.standin import run_standin
+    return run_standin('C13', tier, seed, repo)
+
+
+_standin.tiers = ('quick', 'thorough')
+BOUNDED = [_standin]
 STRUCTURAL = [structural]
 NOT_DECIDED = [
     'special attributes read with normal attribute access (__class__, __iter__, __getitem__, __mro__, __bases__, '
